@@ -63,6 +63,18 @@ func main() {
 		enc, _ := sm4.VerifExpandKey(rnd(r, 16))
 		src, dst := rnd(r, 16*n), make([]byte, 16*n)
 		sm4.VerifKernel(n, &enc[0], (*byte)(unsafe.Pointer(&dst[0])), (*byte)(unsafe.Pointer(&src[0])))
+	case "blockenc", "blockdec": // one block through the PUBLIC Block interface of a cipher built by NewCipher
+		r := rand.New(rand.NewSource(int64(atoi(a[1]))))
+		blk, err := sm4.NewCipher(rnd(r, 16))
+		if err != nil {
+			os.Exit(3)
+		}
+		src, dst := rnd(r, 16), make([]byte, 16)
+		if a[0] == "blockenc" {
+			blk.Encrypt(dst, src)
+		} else {
+			blk.Decrypt(dst, src)
+		}
 	case "copy":
 		n := atoi(a[1])
 		r := rand.New(rand.NewSource(int64(atoi(a[2]))))
